@@ -170,7 +170,22 @@ def monitor(case: dict, obs: dict, tol: float = 0) -> list[tuple[str, str, Any, 
                             b[0], f'>= {a[1] + d}'))
             else:
                 check_next_start('after-failure', 'delay/backoff after the failed run', max(a[2], a[1] + d), b[0], k)
-        # done and oc != 'ok': a final failure (or an ignored error) re-armed by the interval: DESIGN §9 F9, owned by C11.
+        # done and oc != 'ok': an ignored error counts as finished; a final failure must never be followed by a run (below).
+
+    # after a failure for good (PermanentError, retries/timeout exhausted, strict checks) the function is never entered again
+    errors = cfg.get('errors')
+    for k, c in enumerate(cyc):
+        oc = script[k][2]
+        succeeded = c[3] and (oc == 'ok' or (oc == 'arb' and errors == 'ignored'))
+        if c[4] and not succeeded:
+            later = [j for j in range(k + 1, len(cyc)) if cyc[j][3]]
+            if later:
+                out.append(('run-after-final-failure', f'the function is entered again (cycle {later[0]}) after the timer failed for good in cycle {k}',
+                            cyc[later[0]][0], 'no further run'))
+            break
+    # a timer must not spin without suspending once its stopper is set (it blocks the whole event loop)
+    if obs['final'][0] == 'stall' and case.get('stop') is not None and obs['final'][1] >= case['stop'] - tol:
+        out.append(('stall-under-stop', 'the timer loops without ever suspending after its stopper was set', obs['final'], 'the task ends'))
 
     # law 5: the first run is not earlier than the initial delay
     if initial is not None:
@@ -276,9 +291,9 @@ CORPUS: list[dict] = [
     {'cfg': {'interval': 1000, 'idle': 2000}, 'script': [[250, 125, 'ok'], [250, 0, 'ok'], [0, 0, 'ok']], 'resets': [500, 2500, 2625]},
     # idle-only: waits for the next change, polling every `idle`
     {'cfg': {'idle': 2000}, 'script': [[250, 125, 'ok'], [250, 0, 'ok'], [0, 0, 'ok']], 'resets': [500, 6125, 9000]},
-    # idle-only under a set stopper: DESIGN §9 F1 (owned by C09) -- must be survived and must agree with the model's FStall
+    # idle-only under a set stopper: the wait must end and the task exit (fixed in /repo ba077d7; a stall is a violation)
     {'cfg': {'idle': 2000}, 'script': [[250, 125, 'ok'], [250, 0, 'ok']], 'resets': [500], 'stop': 4000},
-    # errors: delay of TemporaryError, backoff of an arbitrary error, then retries exhausted (F9 shape, C11)
+    # errors: delay of TemporaryError, backoff of an arbitrary error, then retries exhausted: never invoked again (/repo e01f313)
     {'cfg': {'interval': 1000, 'initial_delay': 3000, 'retries': 2, 'backoff': 250},
      'script': [[250, 125, 'arb'], [250, 0, 'arb'], [0, 0, 'arb'], [0, 0, 'perm'], [0, 0, 'ok']], 'resets': [500], 'stop': 7000},
     # one-shot with a retry
@@ -351,9 +366,9 @@ def check_case(ctx: fw.Ctx, case: dict, D: list[fw.Case], stats: bool = True) ->
             else:
                 ctx.count('post_branch', 'break (one-shot)')
             if c[4] and case['script'][k][2] != 'ok' and c[3]:
-                ctx.count('cross_reference', 'final failure / ignored error re-armed by the interval (F9, C11)')
+                ctx.count('outcomes', 'ignored error' if (case['script'][k][2] == 'arb' and cfg['errors'] == 'ignored') else 'final failure (no run may follow)')
         if obs['final'][0] == 'stall':
-            ctx.count('cross_reference', 'idle-only wait spins under a set stopper or idle<=0 (F1, C09)')
+            ctx.count('outcomes', 'idle-only wait with idle<=0 never suspends (no stopper set)')
         if any(a[0] < r <= a[1] for a in obs['cycles'] for r in case['resets']):
             ctx.count('schedule', 'essential change while the function runs')
         if any(t < r <= w for t, d, w in obs['sleeps'] if w is not None for r in case['resets']):
